@@ -286,7 +286,6 @@ where
                 prods.push(Some(start_prod));
                 prod_precs.push(Some(None));
                 prods_rules.push(Some(ridx));
-                actions.push(None);
                 continue;
             } else if implicit_start_rule.as_ref() == Some(astrulename) {
                 // Add the intermediate start rule (handling implicit tokens at the beginning of
@@ -382,6 +381,7 @@ where
 
         assert!(!token_names.is_empty());
         assert!(!rule_names.is_empty());
+        let prods_len = prods.len();
         Ok(YaccGrammar {
             rules_len: RIdx(rule_names.len().as_()),
             rule_names: rule_names.into_boxed_slice(),
@@ -402,10 +402,24 @@ where
                 .map(|x| x.unwrap().into_boxed_slice())
                 .collect(),
             prod_precs: prod_precs.into_iter().map(Option::unwrap).collect(),
-            prod_spans: ast.prods.iter().map(|prod| prod.prod_span).collect(),
+            // Productions which don't come from the source (the start production and those
+            // added for implicit tokens) have an empty span, no action and no action span.
+            prod_spans: ast
+                .prods
+                .iter()
+                .map(|prod| prod.prod_span)
+                .chain(std::iter::repeat(Span::new(0, 0)))
+                .take(prods_len)
+                .collect(),
             implicit_rule: implicit_rule.map(|x| rule_map[&x]),
-            actions: actions.into_boxed_slice(),
-            action_spans: action_spans.into_boxed_slice(),
+            actions: {
+                actions.resize(prods_len, None);
+                actions.into_boxed_slice()
+            },
+            action_spans: {
+                action_spans.resize(prods_len, None);
+                action_spans.into_boxed_slice()
+            },
             parse_param: ast.parse_param.clone(),
             parse_generics: ast.parse_generics.clone(),
             programs: ast.programs.clone(),
